@@ -1872,6 +1872,8 @@ def _parse_rfc3339_concrete(text):
         dt=datetime.datetime(int(m.group(1)),int(m.group(2)),int(m.group(3)),int(m.group(4)),int(m.group(5)),min(int(m.group(6)),59),tzinfo=datetime.timezone.utc)
     except ValueError: return None
     frac=m.group(7); nanos=int((frac[1:]+'000000000')[:9]) if frac else 0
+    if int(m.group(6))==60: nanos+=1000000000          # chrono keeps a leap second as :59 plus a full extra second of nanoseconds
+    if int(m.group(6))>60: return None
     z=m.group(8)
     off=0 if z in 'Zz' else (1 if z[0]=='+' else -1)*(int(z[1:3])*3600+int(z[4:6])*60)
     return int(dt.timestamp()),nanos,off
@@ -1906,6 +1908,7 @@ def _fmt_rfc3339(utc,off,use_z,nanos=0):
     try: t=datetime.datetime(1970,1,1)+datetime.timedelta(seconds=utc+off)
     except OverflowError: raise Unsupported('rfc3339 out of range')
     s=t.strftime('%Y-%m-%dT%H:%M:%S')
+    if nanos>=1000000000 and s.endswith(':59'): s=s[:-2]+'60'; nanos-=1000000000      # leap second
     if nanos: s+=('.%09d'%nanos).rstrip('0')
     if off==0 and use_z: return s+'Z'
     sign='+' if off>=0 else '-'; o=abs(off)
@@ -1917,8 +1920,9 @@ def m_to_rfc3339_opts(e,run,a,f):
     offv=Int(32,True,0) if d.ty=='DateTime' else d.f[2]
     if d.f[0].conc() and offv.conc():
         off=offv.signed_val()
-        txt=_fmt_rfc3339(d.f[0].signed_val(),off,use_z)
-        return StringO(list(txt.encode()),False,{'kind':'rfc3339','local_secs':d.f[0].signed_val()+off,'nanos':0,'offset':off})
+        leap=d.f[1].conc() and d.f[1].v>=1000000000
+        txt=_fmt_rfc3339(d.f[0].signed_val(),off,use_z,1000000000 if leap else 0)
+        return StringO(list(txt.encode()),False,{'kind':'rfc3339','local_secs':d.f[0].signed_val()+off,'nanos':1000000000 if leap else 0,'offset':off})
     loc=d.f[0].z() if d.ty=='DateTime' else e.binop('Add',d.f[0],_off64(d)).z()
     return StringO(list(b'<rfc3339>'),True,{'kind':'rfc3339','local_secs':loc,'nanos':0,'offset':offv.v,'zulu':use_z})
 def m_to_rfc3339(e,run,a,f):
